@@ -62,6 +62,13 @@ Local Open Scope string_scope.
 Theorem C17_loop_actions : gen_relayer_loop_actions = ["Sleep"; "Get"; "FilterLogs"; "handleEthereumEvent"; "Sleep"; "Put"].
 Proof. reflexivity. Qed.
 Print Assumptions C17_loop_actions.
+(* ... and every LevelDB access of the relayer package: the Ethereum cursor is read and written by the Ethereum listener
+   only (the Cosmos listener, which runs in the same process on the same database, keeps to its own key) *)
+Theorem C17_cursor_owners : gen_relayer_db_accesses =
+  [("cosmos.go", "CosmosSub.Start", "Get", "[]byte(cosmosLevelDBKey)"); ("cosmos.go", "CosmosSub.Start", "Put", "[]byte(cosmosLevelDBKey)");
+   ("ethereum.go", "EthereumSub.Start", "Get", "[]byte(ethLevelDBKey)"); ("ethereum.go", "EthereumSub.Start", "Put", "[]byte(ethLevelDBKey)")].
+Proof. reflexivity. Qed.
+Print Assumptions C17_cursor_owners.
 Local Close Scope string_scope.
 
 (* a concrete run: events in blocks 105 and 108, a kill after the claims went out and before the cursor was written,
